@@ -4482,7 +4482,8 @@ class EntityMeta(type):
         elif not issubclass(entity, obj.__class__): throw(TransactionError,
             'Unexpected class change from %s to %s for object with primary key %r' %
             (obj.__class__, entity, obj._pkval_))
-        elif obj._rbits_ or obj._wbits_: throw(NotImplementedError)
+        elif (obj._rbits_ or obj._wbits_) and any(entity._bits_.get(attr) != bit for attr, bit in obj.__class__._bits_.items()):
+            throw(NotImplementedError)  # the read/write bits of the base class would mean other attributes in the subclass
         else: obj.__class__ = entity
 
         if obj is None:
